@@ -47,6 +47,8 @@ type Closure struct {
 func TV(t Term) Val { return Val{T: t, IsT: true} }
 
 type State struct {
+	invSeen map[string]bool  // representation invariants already assumed (ptr|heap version)
+	dirty   map[string]dirtyObj // objects with a representation invariant written by this activation
 	pure  bool // assumptions are ignored (spec evaluation)
 	reach Term
 	cells map[*Cell]Term
@@ -55,7 +57,7 @@ type State struct {
 }
 
 func (s *State) Clone() *State {
-	n := &State{pure: s.pure, reach: s.reach, cells: make(map[*Cell]Term, len(s.cells)), heaps: make(map[string]Term, len(s.heaps)), armed: make(map[*ssa.Defer]Term, len(s.armed))}
+	n := &State{pure: s.pure, reach: s.reach, invSeen: s.invSeen, dirty: s.dirty, cells: make(map[*Cell]Term, len(s.cells)), heaps: make(map[string]Term, len(s.heaps)), armed: make(map[*ssa.Defer]Term, len(s.armed))}
 	for k, v := range s.cells {
 		n.cells[k] = v
 	}
@@ -98,6 +100,11 @@ type Frame struct {
 	namedResults []*ssa.Alloc
 	callSite string
 	inPanicDefers bool
+}
+
+type dirtyObj struct {
+	typ string
+	ptr Term
 }
 
 type quantRecT struct {
@@ -242,6 +249,14 @@ func (vc *VC) mergeStates(sts []*State, hint string) *State {
 		conds[i] = vc.DefineAlways("e."+hint, s.reach)
 		rs = append(rs, conds[i])
 	}
+	for _, s := range sts {
+		for k, d := range s.dirty {
+			if out.dirty == nil {
+				out.dirty = map[string]dirtyObj{}
+			}
+			out.dirty[k] = d
+		}
+	}
 	out.reach = vc.DefineAlways("r."+hint, Or(rs...))
 	if isAtom(out.reach.S) {
 		var names []string
@@ -316,7 +331,14 @@ func (vc *VC) mergeStates(sts []*State, hint string) *State {
 	}
 	for _, k := range sortedKeysT(heapKeys) {
 		k := k
-		if t, ok := merge(func(s *State) (Term, bool) { t, ok := s.heaps[k]; return t, ok }, k); ok {
+		if t, ok := merge(func(s *State) (Term, bool) {
+			t, ok := s.heaps[k]
+			if !ok {
+				// never touched on this path: still the entry value
+				t, ok = vc.entryHeaps[k]
+			}
+			return t, ok
+		}, k); ok {
 			out.heaps[k] = t
 		}
 	}
